@@ -17,6 +17,8 @@ class NotInDomain(Exception):
     pass
 
 
+ALIAS = False         # when True, equal containers / equal rows of one grid are one and the same Python object
+_alias_memo = {}
 WRAP_NUM = False      # when True, numbers without unit are built as hszinc.Quantity(v) instead of bare int / float
 SUBCLASS = False      # when True, leaf values are built as instances of *subclasses* of the value types
 
@@ -113,8 +115,16 @@ def _to_hs(n):
     if k == 'coord':
         return hszinc.Coordinate(n[1], n[2])
     if k == 'list':
+        if ALIAS:
+            if n not in _alias_memo:
+                _alias_memo[n] = [to_hs(x) for x in n[1]]
+            return _alias_memo[n]
         return [to_hs(x) for x in n[1]]
     if k == 'dict':
+        if ALIAS:
+            if n not in _alias_memo:
+                _alias_memo[n] = dict((kk, to_hs(x)) for kk, x in n[1])
+            return _alias_memo[n]
         return dict((kk, to_hs(x)) for kk, x in n[1])
     if k == 'grid':
         return to_grid(n)
@@ -168,6 +178,14 @@ def to_grid(n):
     g = hszinc.Grid(version=ver,
                     metadata=dict((k, to_hs(v)) for k, v in meta) if meta else None,
                     columns=[(c, [(k, to_hs(v)) for k, v in m]) for c, m in cols])
+    if ALIAS:
+        _alias_memo.clear()
+        memo = {}
+        for row in rows:
+            if row not in memo:
+                memo[row] = dict((c, to_hs(v)) for c, v in row)
+            g.append(memo[row])
+        return g
     for row in rows:
         g.append(dict((c, to_hs(v)) for c, v in row))
     return g
